@@ -161,6 +161,33 @@ def run(ctx):
     else:
         ctx.record('R13.3', fp.qualname, 'arg-min/arg-max fold on all %d orderings of %d segments (with ties and zeros)' % (2 * len(cases), NSEG),
                    not bad, detail='; '.join(bad[:3]), where=where(fp), sample={'orderings': 2 * len(cases), 'segments': NSEG})
+    # a longer, mixed path (one curve followed by eight lines): the index reported is the position IN THE PATH of the segment that
+    # attains the extreme, whatever grouping by segment kind an implementation uses internally
+    def th_mixed(it):
+        q = it.construct('path.QuadraticBezier', Rat.csym('Q0'), Rat.csym('Q1'), Rat.csym('Q2'))
+        lines = [it.construct('path.Line', Rat.csym('A%d' % k), Rat.csym('B%d' % k)) for k in range(8)]
+        mins = [12, 11, 15, 9, 4, 8, 13, 10]
+        maxs = [30, 31, 29, 35, 28, 27, 41, 33]
+        table = {id(s_): ((Fr(mins[k]), Fr(k + 1, 20)), (Fr(maxs[k]), Fr(k + 1, 40))) for k, s_ in enumerate(lines)}
+        it.call_hooks['path.Line.radialrange'] = lambda it2, a, kw: table[id(a[0])]
+        it.call_hooks['path.QuadraticBezier.radialrange'] = lambda it2, a, kw: ((Fr(20), Fr(1, 2)), (Fr(25), Fr(1, 2)))
+        p = it.construct('path.Path', q, *lines)
+        return it.call_method(p, 'radialrange', Z)
+    try:
+        mixed_bad = []
+        for pth in explore(ctx.model, th_mixed, {'time_limit': 30}):
+            if pth.raised is not None:
+                mixed_bad.append('raises %s' % pth.raised.exc_name)
+                continue
+            gmin, gmax = pth.value
+            if not (len(gmin) == 3 and concrete_number_eq(gmin[0], 4) and concrete_number_eq(gmin[1], Fr(5, 20)) and concrete_number_eq(gmin[2], 5)):
+                mixed_bad.append('minimum reported as %r, it is (4, 1/4) on the segment at index 5' % (gmin,))
+            if not (len(gmax) == 3 and concrete_number_eq(gmax[0], 41) and concrete_number_eq(gmax[1], Fr(7, 40)) and concrete_number_eq(gmax[2], 7)):
+                mixed_bad.append('maximum reported as %r, it is (41, 7/40) on the segment at index 7' % (gmax,))
+        ctx.record('R13.3', fp.qualname, 'curve + 8 lines: the reported index is the position in the path', not mixed_bad,
+                   detail='; '.join(mixed_bad[:2]), where=where(fp))
+    except Undecidable as e:
+        ctx.undecided('R13.3', fp.qualname, 'curve + 8 lines: the reported index is the position in the path', str(e), where=where(fp))
     ctx.exhaustive = True
 
     # ---------------------------------------------------------------- R13.4
